@@ -267,6 +267,10 @@ func checkC06(c *Check) {
 		"c0\n[$a $b &a:\"one\" &b:\"two\" $a $b]",
 		"c0\n[&a:{\"k\" = &b:[1]} $a $b]",
 		"c0\n[[$a] [[$a]] &a:\"deep\"]",
+		"c0\n@r<\"a\" \"b\">\n[&m:7 @r{1 $m} @r{$m 1} @r{$m $m}]",
+		"c0\n@r<\"a\" \"b\">\n[@r{1 $m} @r{$m 1} &m:7]",
+		"c0\n[&a:1.5 $a &b:-0.25 $b $a]",
+		"c0\n[$a $b &a:1.5 &b:1e400]",
 	} {
 		cfg := configuration.New()
 		checkDoc("cte", []byte(text), nil, fmt.Sprintf("targeted%d", i), cfg)
